@@ -357,7 +357,7 @@ func (g *gen) numForm(n *big.Int) *J {
 }
 
 var dataSizesQuick = []int{0, 0, 1, 4, 31, 32, 33, 36, 55, 56, 68, 100, 200, 300}
-var dataSizesThorough = []int{1024, 4096, 65536}
+var dataSizesThorough = []int{1024, 4096, 20000}
 
 func (g *gen) amount() *big.Int {
 	switch g.r.Intn(8) {
